@@ -1,13 +1,89 @@
 """C11 — declared state limits are never violated in stochastic simulation (shares the C04 machinery)."""
+import numpy as np
 import c04
+
+TOL = 1e-9
+
+# scenarios outside the definition generator of C04: (name, builder) -> (model, limits, x0, t0, horizon)
+def _extended():
+    """a state (and an event on it) added to the model after construction: it has no declared limits, so lower limit 0"""
+    import pg
+    m = pg.model(state=[("A", (0, None)), ("X", (0, 6))], param=["k", "g"],
+                 event=[pg.Event(rate="k*A", transition_list=[pg.Transition(origin="A", destination="X", transition_type="T")])])
+    m.state_list = ["Z"]
+    m.add_event(pg.Event(rate="g", transition_list=[pg.Transition(origin="Z", transition_type="D", magnitude="2")]))
+    m.parameters = [("k", 0.05), ("g", 5.0)]
+    return m, [(0, None), (0, 6), (0, None)], [20.0, 0.0, 3.0], 0.0, 6.0
+
+
+def _extended_upper():
+    """same, the declared upper limit of a constructor state is what binds"""
+    import pg
+    m = pg.model(state=[("A", (0, None)), ("X", (0, 6))], param=["k", "g"],
+                 event=[pg.Event(rate="k*A", transition_list=[pg.Transition(origin="A", destination="X", transition_type="T")])])
+    m.state_list = ["Z"]
+    m.add_event(pg.Event(rate="g", transition_list=[pg.Transition(destination="Z", transition_type="B")]))
+    m.parameters = [("k", 1.0), ("g", 2.0)]
+    return m, [(0, None), (0, 6), (0, None)], [20.0, 0.0, 0.0], 0.0, 6.0
+
+
+def _late_start():
+    """initial time 2: an output grid that starts before it holds the initial state there"""
+    import pg
+    m = pg.model(state=[("A", (0, 2000)), ("X", (0, 600))], param=["k", "g"],
+                 event=[pg.Event(rate="k*A", transition_list=[pg.Transition(origin="A", destination="X", transition_type="T", magnitude="3")]),
+                        pg.Event(rate="g", transition_list=[pg.Transition(destination="A", transition_type="B", magnitude="40")])])
+    m.parameters = [("k", 0.4), ("g", 30.0)]
+    return m, [(0, 2000), (0, 600)], [1500.0, 100.0], 2.0, 8.0
+
+
+SCENARIOS = {"state-added-after-construction": _extended, "state-added-after-construction/upper": _extended_upper,
+             "grid-before-initial-time": _late_start}
+
+
+def scenario_check(name, exact, seed):
+    """-> None or what fails: every recorded state of raw and gridded paths within the limits"""
+    import pg
+    m, lims, x0, t0, T = SCENARIOS[name]()
+    m.initial_values = (list(x0), np.float64(t0))
+    grid = np.linspace(0.0, T, 25)
+    out = []
+    for gridded in (False, True):
+        np.random.seed(seed)
+        try:
+            with pg.quiet():
+                X = m.solve_stochast(grid if gridded else T, 2, exact=exact, full_output=True)[0]
+        except BaseException as e:          # noqa: B902
+            return "%s, exact=%s, %s: solve_stochast raised %s: %s" % (name, exact, "grid" if gridded else "raw", type(e).__name__, str(e)[:120])
+        for r, x in enumerate(X):
+            x = np.asarray(x, dtype=float)
+            for j, (lo, hi) in enumerate(lims):
+                col = x[:, j]
+                if (lo is not None and col.min() < lo - TOL) or (hi is not None and col.max() > hi + TOL):
+                    return ("%s, exact=%s, %s path %d: state %d ranges over [%g, %g], its limits are (%s, %s) (undeclared = lower limit 0)"
+                            % (name, exact, "gridded" if gridded else "raw", r, j, col.min(), col.max(), lo, hi))
+    return None
 
 
 def run(ck):
     ck.rule = ("event models with lower / upper / two-sided / absent / default limits per state, x0 inside the limits and "
                "small populations so the boundary is hit; exact, adaptive and fixed tau; magnitudes up to 3; each path "
                "judged directly (every recorded state within limits) and replayed in Coq; non-trivial = at least one "
-               "rejected (illegal) step occurred on the path")
+               "rejected (illegal) step occurred on the path.  Plus fixed scenarios: a state added after construction, "
+               "an output grid that starts before the initial time (raw and gridded paths, exact and tau-leap)")
     c04.drive(ck, "C11", limits=True)
+    for name in SCENARIOS:
+        for exact in (True, False):
+            for seed in (1, 2):
+                inp = dict(kind="scenario", name=name, exact=exact, seed=seed)
+                bad = scenario_check(name, exact, seed)
+                ck.case(inp, nontrivial=True)
+                if bad:
+                    ck.violation("limit-violated/" + name.split("/")[0], bad, inp)
 
 
-replay = c04.replay
+def replay(ck, data):
+    inp = data["input"]
+    if inp.get("kind") == "scenario":
+        return scenario_check(inp["name"], inp["exact"], inp["seed"])
+    return c04.replay(ck, data)
